@@ -388,6 +388,31 @@ impl ConfigListener {
         self.sender_map.len()
     }
 
+    /// verification hook: the listeners that are still waiting, with the keys they wait on
+    #[cfg(feature = "verif_hooks")]
+    pub(crate) fn verif_pending(&self) -> Vec<(u64, Vec<String>)> {
+        let mut map: std::collections::BTreeMap<u64, Vec<String>> = Default::default();
+        for (key, versions) in &self.listener {
+            for v in versions {
+                if self.sender_map.contains_key(v) {
+                    map.entry(*v).or_default().push(format!(
+                        "{}|{}|{}",
+                        key.data_id, key.group, key.tenant
+                    ));
+                }
+            }
+        }
+        for v in self.sender_map.keys() {
+            map.entry(*v).or_default();
+        }
+        map.into_iter()
+            .map(|(k, mut v)| {
+                v.sort();
+                (k, v)
+            })
+            .collect()
+    }
+
     pub(crate) fn get_listener_key_size(&self) -> usize {
         self.listener.len()
     }
